@@ -20,7 +20,11 @@ pub enum Cfg {
     Alt(Box<Cfg>, usize),
     /// overlay over layers (first = upper)
     Ovl(Vec<Cfg>),
+    /// overlay whose `usize` layers are sibling sub-directories of ONE shared filesystem
+    OvlSub(Box<Cfg>, usize),
 }
+
+pub const LAYER_DIRS: [&str; 4] = ["zLAYER0", "zLAYER1", "zLAYER2", "zLAYER3"];
 
 impl Cfg {
     pub fn render(&self) -> String {
@@ -29,6 +33,7 @@ impl Cfg {
             Cfg::Phys => "Phys".into(),
             Cfg::Alt(inner, d) => format!("Alt{}({})", d, inner.render()),
             Cfg::Ovl(ls) => format!("Ovl[{}]", ls.iter().map(|l| l.render()).collect::<Vec<_>>().join(", ")),
+            Cfg::OvlSub(inner, n) => format!("OvlSub{}({})", n, inner.render()),
         }
     }
     /// coarse shape label for coverage statistics
@@ -41,6 +46,7 @@ impl Cfg {
                 let nested = ls.iter().any(|l| !matches!(l, Cfg::Mem | Cfg::Phys));
                 format!("ovl{}{}", ls.len(), if nested { "+nested" } else { "" })
             }
+            Cfg::OvlSub(inner, n) => format!("ovlsub{}({})", n, inner.shape()),
         }
     }
     pub fn top(&self) -> &'static str {
@@ -48,7 +54,7 @@ impl Cfg {
             Cfg::Mem => "mem",
             Cfg::Phys => "phys",
             Cfg::Alt(..) => "altroot",
-            Cfg::Ovl(..) => "overlay",
+            Cfg::Ovl(..) | Cfg::OvlSub(..) => "overlay",
         }
     }
     pub fn nesting(&self) -> usize {
@@ -56,13 +62,14 @@ impl Cfg {
             Cfg::Mem | Cfg::Phys => 0,
             Cfg::Alt(i, _) => 1 + i.nesting(),
             Cfg::Ovl(ls) => 1 + ls.iter().map(|l| l.nesting()).max().unwrap_or(0),
+            Cfg::OvlSub(i, _) => 1 + i.nesting(),
         }
     }
     pub fn contains_overlay(&self) -> bool {
         match self {
             Cfg::Mem | Cfg::Phys => false,
             Cfg::Alt(i, _) => i.contains_overlay(),
-            Cfg::Ovl(_) => true,
+            Cfg::Ovl(_) | Cfg::OvlSub(..) => true,
         }
     }
     pub fn contains_phys(&self) -> bool {
@@ -71,6 +78,7 @@ impl Cfg {
             Cfg::Phys => true,
             Cfg::Alt(i, _) => i.contains_phys(),
             Cfg::Ovl(ls) => ls.iter().any(|l| l.contains_phys()),
+            Cfg::OvlSub(i, _) => i.contains_phys(),
         }
     }
     pub fn contains_alt(&self) -> bool {
@@ -78,12 +86,14 @@ impl Cfg {
             Cfg::Mem | Cfg::Phys => false,
             Cfg::Alt(..) => true,
             Cfg::Ovl(ls) => ls.iter().any(|l| l.contains_alt()),
+            Cfg::OvlSub(i, _) => i.contains_alt(),
         }
     }
     /// number of top-level overlay layers (0 if the top is not an overlay or altroot over one)
     pub fn overlay_layers(&self) -> usize {
         match self {
             Cfg::Ovl(ls) => ls.len(),
+            Cfg::OvlSub(_, n) => *n,
             Cfg::Alt(i, _) => i.overlay_layers(),
             _ => 0,
         }
@@ -95,6 +105,7 @@ impl Cfg {
             Cfg::Phys => json!("phys"),
             Cfg::Alt(i, d) => json!({"alt": i.to_json(), "depth": d}),
             Cfg::Ovl(ls) => json!({"ovl": ls.iter().map(|l| l.to_json()).collect::<Vec<_>>()}),
+            Cfg::OvlSub(i, n) => json!({"ovlsub": i.to_json(), "layers": n}),
         }
     }
     pub fn from_json(v: &serde_json::Value) -> Option<Cfg> {
@@ -107,6 +118,9 @@ impl Cfg {
         }
         if let Some(a) = v.get("alt") {
             return Some(Cfg::Alt(Box::new(Cfg::from_json(a)?), v.get("depth")?.as_u64()? as usize));
+        }
+        if let Some(o) = v.get("ovlsub") {
+            return Some(Cfg::OvlSub(Box::new(Cfg::from_json(o)?), v.get("layers")?.as_u64()? as usize));
         }
         if let Some(o) = v.get("ovl") {
             let mut ls = vec![];
@@ -188,6 +202,16 @@ pub fn build_fs(cfg: &Cfg, scratch: &mut Vec<Arc<Scratch>>) -> Result<FsArc, Str
             }
             Ok(Arc::new(OverlayFS::new(&roots)))
         }
+        Cfg::OvlSub(inner, n) => {
+            let shared = plain_root(&build_fs(inner, scratch)?);
+            let mut roots = vec![];
+            for i in 0..(*n).clamp(1, 4) {
+                let l = shared.join(LAYER_DIRS[i]).map_err(|e| e.to_string())?;
+                l.create_dir_all().map_err(|e| format!("layer dir: {}", e))?;
+                roots.push(l);
+            }
+            Ok(Arc::new(OverlayFS::new(&roots)))
+        }
     }
 }
 
@@ -229,6 +253,36 @@ pub fn build_with(
             }
             let wrapped: Vec<VfsPath> = raw.iter().enumerate().map(|(i, r)| wrap(r.clone(), i)).collect();
             (VfsPath::new(OverlayFS::new(&wrapped)), raw_roots)
+        }
+        Cfg::OvlSub(inner, n) => {
+            let n = (*n).clamp(1, 4);
+            let shared_fs = build_fs(inner, &mut scratch)?;
+            let shared_plain = plain_root(&shared_fs);
+            let mut prefix = String::new();
+            for d in alts.iter().rev() {
+                for i in 0..*d {
+                    prefix.push('/');
+                    prefix.push_str(ALT_NAMES[i % ALT_NAMES.len()]);
+                }
+            }
+            // clean per-layer views for inspection and pre-population
+            let mut raw_roots = vec![];
+            for i in 0..n {
+                let l = shared_plain.join(LAYER_DIRS[i]).map_err(|e| e.to_string())?;
+                l.create_dir_all().map_err(|e| format!("layer dir: {}", e))?;
+                raw_roots.push(VfsPath::new(AltrootFS::new(l)));
+            }
+            for (li, p, node) in prepop {
+                let li = *li % n;
+                write_entry(&raw_roots[li], &format!("{}{}", prefix, p), node)?;
+            }
+            // the overlay itself sits on sub-paths of ONE (possibly wrapped) filesystem
+            let shared = wrap(shared_fs, usize::MAX);
+            let mut layer_paths = vec![];
+            for i in 0..n {
+                layer_paths.push(shared.join(LAYER_DIRS[i]).map_err(|e| e.to_string())?);
+            }
+            (VfsPath::new(OverlayFS::new(&layer_paths)), raw_roots)
         }
         other => {
             let fs = build_fs(other, &mut scratch)?;
